@@ -2725,7 +2725,7 @@ PPL::Grid::frequency(const Linear_Expression& expr,
     }
     freq_n = 0;
     freq_d = 1;
-    val_n = 0;
+    val_n = expr.inhomogeneous_term();
     val_d = 1;
     return true;
   }
